@@ -7,7 +7,9 @@ import (
 	"go/parser"
 	"go/token"
 	"go/types"
+	"os"
 	"strings"
+	"time"
 
 	"golang.org/x/tools/go/ssa"
 
@@ -428,4 +430,132 @@ func deadStore(st *ssa.Store, al *ssa.Alloc) bool {
 	}
 	_ = fn
 	return true
+}
+
+// checkStaleErrReturns: `return nil, err` on a path that has just established err == nil hands the caller a nil result
+// with a nil error — the caller proceeds with a nil pool / config / connection. Every return that yields only zero
+// values next to a *variable* error is checked: on no path may that variable be known to be nil.
+func checkStaleErrReturns(c *engine.Ctx, rule string, pkgs ...string) {
+	c.Rule(rule, "in "+strings.Join(pkgs, ", ")+": a failure exit (`return <zero values>, err`) never returns an err that this path has found to be nil")
+	p := c.P
+	errT := types.Universe.Lookup("error").Type()
+	inScope := func(path string) bool {
+		rel := strings.TrimPrefix(path, engine.ModPath+"/")
+		for _, q := range pkgs {
+			if q == "*" || rel == q || strings.HasPrefix(rel, q+"/") {
+				return true
+			}
+		}
+		return false
+	}
+	isZero := func(v ssa.Value) bool {
+		k, ok := v.(*ssa.Const)
+		if !ok {
+			return false
+		}
+		if k.Value == nil {
+			return true
+		}
+		s := k.Value.ExactString()
+		return s == "0" || s == `""` || s == "false"
+	}
+	// positions of return statements that spell their operands out
+	explicit := map[token.Pos]bool{}
+	for _, pk := range p.Pkgs {
+		if pk.Types == nil || !engine.IsRepoPkg(pk.PkgPath) || !inScope(pk.PkgPath) {
+			continue
+		}
+		for _, file := range pk.Syntax {
+			ast.Inspect(file, func(nd ast.Node) bool {
+				if rs, ok := nd.(*ast.ReturnStmt); ok && len(rs.Results) > 0 {
+					explicit[rs.Return] = true
+				}
+				return true
+			})
+		}
+	}
+	n := 0
+	for _, f := range p.RepoFuncs() {
+		if f.Pkg == nil || !inScope(f.Pkg.Pkg.Path()) {
+			continue
+		}
+		res := f.Signature.Results()
+		if res.Len() < 2 || !types.Identical(res.At(res.Len()-1).Type(), errT) {
+			continue
+		}
+		var cand []*ssa.Return
+		var track []ssa.Value
+		engine.ForEachInstr(f, func(in ssa.Instruction) {
+			r, ok := in.(*ssa.Return)
+			if !ok || len(r.Results) != res.Len() {
+				return
+			}
+			ev := r.Results[len(r.Results)-1]
+			if _, isC := ev.(*ssa.Const); isC {
+				return
+			}
+			// only returns whose other operands are literal zero values in the source (`return nil, err`,
+			// `return "", 0, err`): a bare return of named results, or `return v, err`, is not a failure exit by shape
+			for _, v := range r.Results[:len(r.Results)-1] {
+				if !isZero(v) {
+					return
+				}
+			}
+			if !explicit[r.Pos()] {
+				return // a bare `return` of named results
+			}
+			cand = append(cand, r)
+			track = append(track, r.Results...)
+		})
+		if len(cand) == 0 {
+			continue
+		}
+		n++
+		f := f
+		isCand := func(in ssa.Instruction) bool {
+			for _, r := range cand {
+				if in == ssa.Instruction(r) {
+					return true
+				}
+			}
+			return false
+		}
+		q := &engine.PathQuery{Fn: f, Track: track, Sink: isCand, NoInline: true,
+			// only nil tests of error values matter here
+			Relevant: func(cond ssa.Value) bool {
+				bo, ok := cond.(*ssa.BinOp)
+				if !ok || (bo.Op != token.EQL && bo.Op != token.NEQ) {
+					return false
+				}
+				return types.Identical(bo.X.Type(), errT) || types.Identical(bo.Y.Type(), errT)
+			}}
+		t0 := time.Now()
+		states, err := q.Run()
+		if d := time.Since(t0); d > 300*time.Millisecond && os.Getenv("FRPSA_TIMING") == "1" {
+			fmt.Fprintf(os.Stderr, "R16 %s %v states=%d\n", p.FuncName(f), d, len(states))
+		}
+		key := p.FuncName(f) + ">failure-exits"
+		if err != nil {
+			c.Undecide(key, f.Pos(), "%v", err)
+			continue
+		}
+		bad := false
+		for _, st := range states {
+			r := st.Sink.(*ssa.Return)
+			ev := st.Resolve(r.Results[len(r.Results)-1])
+			if engine.IsNilConst(ev) {
+				continue
+			}
+			if isNil, known := st.IsNil(func(x ssa.Value) bool { return x == ev }); known && isNil {
+				c.Violate(key, r.Pos(), []string{"path: " + st.Witness(), "facts: " + strings.Join(st.LitStrings(), " ; ")},
+					"this exit returns only zero values together with an error variable that the path has found to be nil: the caller gets (nil, nil) and goes on with a nil result")
+				bad = true
+				break
+			}
+		}
+		if !bad {
+			c.Hold(key, f.Pos(), len(states), nil, "no failure exit returns an error variable known to be nil (%d path states; an unreachable exit is vacuously fine)", len(states))
+		}
+	}
+	c.Floor(n, 3)
 }
